@@ -6,7 +6,7 @@ use crate::e1::{VecResult, Vector, E1};
 use crate::expect::Expectation;
 use crate::report::Report;
 use crate::tape::{fnv_str, sample_tapes, Tape};
-use crate::world::exec::{corruptions, json_eq, payload, Executor};
+use crate::world::exec::{corruptions, enum_leaf_sentinels, json_eq, payload, Executor};
 use crate::world::inputs::{assignment_input, InputGen};
 use crate::world::options::Opts;
 use serde_json::{json, Value};
@@ -84,6 +84,14 @@ fn build_group(tape: &[u8], stats: &mut GenStats, n_variants: usize) -> Option<G
                 let p = ex.execute(&mut Tape::new(&sub), &op);
                 base.case.vectors.push(Vector { unit: ui, kind: "response".into(), name: String::new(), input: payload(&p) });
                 labels.push(format!("payload#{} op={}", pk, u.op_name));
+                if pk < 3 {
+                    // the sentinel at one enum leaf: a generated enum takes it as `Other`, the
+                    // stand-in for an extern enum refuses it - judged per option set in `compare`
+                    for (gname, pl) in enum_leaf_sentinels(&p, &base.world.schema).into_iter().take(3) {
+                        labels.push(format!("extern-sentinel {} payload#{} op={}", gname, pk, u.op_name));
+                        base.case.vectors.push(Vector { unit: ui, kind: "response".into(), name: gname, input: pl });
+                    }
+                }
                 if pk == 0 || pk == 3 {
                     let mut cs = corruptions(&p, false, &base.world.schema);
                     let mut st = Tape::new(&sub[300..]);
@@ -160,6 +168,40 @@ fn compare(report: &mut Report, items: &[&Item], results: &[&crate::e1::CaseResu
             report.evaluations += 1;
             if nontrivial {
                 report.nontrivial.insert(fnv_str(&[&base.base.case.schema_text, &base.base.case.document, &base.base.case.vectors[vi].input.to_string(), &serde_json::to_string(&it.base.case.opts).unwrap()]));
+            }
+            if base.labels[vi].starts_with("extern-sentinel ") {
+                // absolute, per option set: accepted iff the enum is generated (not extern) there
+                let gname = &base.base.case.vectors[vi].name;
+                for (who, item, res) in [("baseline", base, a), ("variant", *it, b)] {
+                    if who == "baseline" && k > 1 {
+                        continue;
+                    }
+                    let is_extern = item.base.case.opts.extern_enums.contains(gname);
+                    let ok = match res {
+                        VecResult::Ok(_) => !is_extern,
+                        VecResult::Err(_) => is_extern,
+                        _ => false,
+                    };
+                    report.feature(if is_extern { "extern_sentinel_on_extern_enum" } else { "extern_sentinel_on_generated_enum" });
+                    if !ok {
+                        let summary = format!(
+                            "enum {} is {} under {:?}, but a response carrying a string only the user's own enum type refuses was {} [{}]: {}",
+                            gname,
+                            if is_extern { "declared extern (the user's type must be the one used)" } else { "generated (unknown strings are `Other`)" },
+                            item.base.case.opts,
+                            if is_extern { "accepted" } else { "rejected" },
+                            base.labels[vi],
+                            format!("{:?}", res).chars().take(200).collect::<String>()
+                        );
+                        let mut c1 = item.base.case.clone();
+                        c1.vectors = vec![item.base.case.vectors[vi].clone()];
+                        let feats = item.base.features.list();
+                        let tape = item.tape.clone();
+                        let exp = if is_extern { Expectation::MustErr } else { Expectation::MustOk };
+                        report.failure(None, &format!("c09:extern-sentinel:{}", is_extern), &summary, || replay_json(&c1, &[exp], &feats, &tape, json!({"observed": format!("{:?}", res)})));
+                    }
+                }
+                continue;
             }
             let is_enum = base.base.case.vectors[vi].kind == "enum";
             let same = class(a) == class(b)
